@@ -368,6 +368,22 @@ def genTabFamily (tagp : String) (tier : String) (seed : Nat) (both : Bool) : Ar
     else
       out := out.push (mk { ext := i % 2 = 0, ann := i % 3 = 0, gs := i % 5 = 0 } "")
   if tagp = "c06" then
+    -- an ordinary nested component and a private nested property on one level, in both orders: the two
+    -- registration sites of nested statements must hand out different numbers (seeded change C06-J)
+    let mut j := 0
+    for (cs, ps) in compPropPairs do
+      for order in [true, false] do
+        let innerX := Stmt.mk [.ann { sym := Sym.A } true (.leaf (str "sender")), .ann { sym := Sym.I } true (.leaf (str "sends"))]
+        let innerP := Stmt.mk [.ann { sym := Sym.A } true (.leaf (str "holder")), .ann { sym := Sym.I } true (.leaf (str "holds"))]
+        let nx : Part := .nested { sym := Sym.Cac } innerX
+        let np : Part := .nested { sym := ps, sfx := some ['1'] } innerP
+        let lead : List Part := if cs.name = str "A" then [.ann { sym := Sym.I } true (.leaf (str "acts"))]
+          else [.ann { sym := Sym.A } true (.leaf (str "actor")), .ann { sym := Sym.I } true (.leaf (str "acts"))]
+        let s := Stmt.mk (lead ++ (if order then [nx, np] else [np, nx]) ++ [.ann { sym := cs, sfx := some ['1'] } true (.leaf (str "office"))])
+        for ext in [true, false] do
+          let c := tabCase s!"c06-np{j}" "nested-beside-private-nested" s "7.a" { ext := ext }
+          out := out.push { c with note := Json.mkObj [("kf", ((if supported s then "" else "C02-regex-shape") : Json))] }
+          j := j + 1
     -- witness of an open finding: a suffixed operand of a nested-statement combination on a
     -- property is linked privately; the operand that stays loses its component type
     let text := "A(actor) D(must) I(act) Bdir1(obj) Bdir,p{ Bdir1,p{A(x) I(y)} [OR] Bdir,p{A(z) I(w)} } Cac{A(q) I(r)}"
